@@ -1,4 +1,5 @@
 import Prism.Proofs.C14
+import Prism.Proofs.C14Premul
 
 #print axioms Prism.C14_alpha16_roundtrip
 #print axioms Prism.C14_alpha8_roundtrip
@@ -8,3 +9,5 @@ import Prism.Proofs.C14
 #print axioms Prism.C14_transparent_pixel
 #print axioms Prism.C14_decode_alpha
 #print axioms Prism.C14_encode_alpha_clamps
+#print axioms Prism.C14_premultiplied_valid
+#print axioms Prism.C14_opaque_constructors
